@@ -11,6 +11,8 @@
                         its bound/type tests raises SpectrumError.
  R6 merge / probe     : bitmap_sum is FREE only when both inputs are FREE (finite-domain table over BitmapValue);
                         a user-fixed (N, M) is probed over its whole width.
+ R7 window            : the tested availability window is the granted one (free search, fixed N, widening probe): slice
+                        bounds, pattern length, guard-band indices and the candidate triple agree (index algebra).
  R5 first fit         : policy dispatch picks candidate 0 (first) / -1 (last) of an ascending scan.
 """
 import ast
@@ -530,5 +532,167 @@ def r6_merge_and_probe(ctx):
     ctx.need('R6.merge', 10)
     ctx.need('R6.fixed-slot', 1)
 
+# ------------------------------------------------------------------------------------------------ R7
+def _ix(n, env=None):
+    """integer index expression -> normal form (names are symbols)"""
+    env = env or {}
+    if isinstance(n, ast.Constant) and isinstance(n.value, int) and not isinstance(n.value, bool):
+        return C(n.value)
+    if isinstance(n, ast.Name):
+        return env.get(n.id, Rat.sym(n.id))
+    if isinstance(n, ast.UnaryOp) and isinstance(n.op, ast.USub):
+        return C(0) - _ix(n.operand, env)
+    if isinstance(n, ast.BinOp) and isinstance(n.op, (ast.Add, ast.Sub, ast.Mult)):
+        a, b = _ix(n.left, env), _ix(n.right, env)
+        return a + b if isinstance(n.op, ast.Add) else a - b if isinstance(n.op, ast.Sub) else a * b
+    raise CannotAnalyse(f'index expression {ast.unparse(n)}')
 
-RULES = [('R6.merge-probe', r6_merge_and_probe), ('R1.fresh', r1_fresh), ('R2.commit', r2_commit), ('R4.slots', r4_slots), ('R5.first-fit', r5_first_fit)]
+
+def _window(test, avail, index, lo_name, hi_name, free_name='BitmapValue.FREE'):
+    """decompose  avail[a:b] == [FREE] * w  and  index[x] >= lo  and  index[y] <= hi  (any order of conjuncts, either
+    orientation of the comparisons); returns a, b, w, x, y as normal forms plus the remaining conjuncts"""
+    conj = test.values if isinstance(test, ast.BoolOp) and isinstance(test.op, ast.And) else [test]
+    out = {}
+    rest = []
+    for c in conj:
+        if not (isinstance(c, ast.Compare) and len(c.ops) == 1):
+            rest.append(c)
+            continue
+        le, op, ri = c.left, c.ops[0], c.comparators[0]
+        if isinstance(op, ast.Eq):
+            for x, y in ((le, ri), (ri, le)):
+                if isinstance(x, ast.Subscript) and isinstance(x.slice, ast.Slice) and ast.unparse(x.value) == avail and \
+                        isinstance(y, ast.BinOp) and isinstance(y.op, ast.Mult):
+                    lst, k = (y.left, y.right) if isinstance(y.left, ast.List) else (y.right, y.left)
+                    if isinstance(lst, ast.List) and len(lst.elts) == 1 and ast.unparse(lst.elts[0]) == free_name and \
+                            x.slice.lower is not None and x.slice.upper is not None and x.slice.step is None:
+                        out['a'], out['b'], out['w'] = _ix(x.slice.lower), _ix(x.slice.upper), _ix(k)
+            if 'a' not in out:
+                rest.append(c)
+            continue
+        # orient as  index[e] >= lo  /  index[e] <= hi
+        for x, y, o in ((le, ri, op), (ri, le, {ast.GtE: ast.LtE, ast.LtE: ast.GtE, ast.Gt: ast.Lt, ast.Lt: ast.Gt}.get(type(op), type(None))())):
+            if isinstance(x, ast.Subscript) and ast.unparse(x.value) == index and isinstance(y, ast.Name):
+                if isinstance(o, ast.GtE) and y.id == lo_name:
+                    out['x'] = _ix(x.slice)
+                    break
+                if isinstance(o, ast.LtE) and y.id == hi_name:
+                    out['y'] = _ix(x.slice)
+                    break
+        else:
+            rest.append(c)
+    return out, rest
+
+
+def r7_window(ctx):
+    """R7: the availability window that is tested is the window that is granted.  For a free search the candidate
+    (centre, start, stop) built at scan position i is (index[a] + m, index[a], index[a] + 2m - 1) where [a, b) is the
+    tested slice, b - a = 2m = the length of the all-FREE pattern, and the guard-band tests look at index[a] and
+    index[b-1]; for a fixed N the tested slice is [geti(N) - m, geti(N) + m) and the candidate (N, N-m, N+m-1); the
+    widening probe tests [c - i, c + i) against 2i FREE slots with the same edge tests and returns the last width that
+    passed"""
+    repo = ctx.repo
+    ss = repo.func(MOD, 'spectrum_selection')
+    m = Rat.sym('requested_m')
+    s = site(ss)
+    # ---- free search
+    comps = [n for n in walk_no_nested(ss.node) if isinstance(n, ast.ListComp)]
+    if len(comps) != 1 or len(comps[0].generators) != 1:
+        raise CannotAnalyse('spectrum_selection: candidate comprehension not found')
+    g = comps[0].generators[0]
+    test = g.ifs[0] if len(g.ifs) == 1 else ast.BoolOp(op=ast.And(), values=list(g.ifs))
+    defs = {t.targets[0].id: ast.unparse(t.value) for t in ss.node.body if isinstance(t, ast.Assign) and isinstance(t.targets[0], ast.Name)}
+    inv = {v.split('.')[-1]: k for k, v in defs.items() if '.spectrum_bitmap.' in v}
+    for need in ('bitmap', 'freq_index', 'freq_index_min', 'freq_index_max'):
+        if need not in inv:
+            raise CannotAnalyse(f'spectrum_selection: local for spectrum_bitmap.{need} not found')
+    av, fi, lo, hi = inv['bitmap'], inv['freq_index'], inv['freq_index_min'], inv['freq_index_max']
+    w, rest = _window(test, av, fi, lo, hi)
+    ok = all(k in w for k in 'abwxy') and not rest
+    ctx.check('R7.window', f'{s} free search: window tests', ok, key(ss, 'free|shape'),
+              'the candidate filter is not (slice all FREE) and (lower edge >= freq_index_min) and (upper edge <= freq_index_max)',
+              ast.unparse(test))
+    if ok:
+        i = Rat.sym(g.target.id)
+        ctx.check('R7.window', f'{s} free search: width', (w['b'] - w['a']).eq(C(2) * m) and w['w'].eq(C(2) * m) and w['a'].eq(i),
+                  key(ss, 'free|width'), 'the tested slice is not the 2*M slots starting at the scan position', ast.unparse(test))
+        ctx.check('R7.window', f'{s} free search: guard bands', w['x'].eq(w['a']) and w['y'].eq(w['b'] - C(1)), key(ss, 'free|edges'),
+                  'the guard-band tests do not look at the first and the last slot of the tested window', ast.unparse(test))
+        elt = comps[0].elt
+        okc = isinstance(elt, ast.Tuple) and len(elt.elts) == 3
+        if okc:
+            def idx(e):
+                # e = index[a] + k  ->  (a, k)
+                subs = [n for n in ast.walk(e) if isinstance(n, ast.Subscript) and ast.unparse(n.value) == fi]
+                if len(subs) != 1:
+                    raise CannotAnalyse(f'candidate component {ast.unparse(e)}')
+                base = _ix(subs[0].slice)
+                sub_txt = ast.unparse(subs[0])
+                e2 = ast.parse(ast.unparse(e).replace(sub_txt, '__base__'), mode='eval').body
+                return base, _ix(e2) - Rat.sym('__base__')
+            (a0, k0), (a1, k1), (a2, k2) = idx(elt.elts[0]), idx(elt.elts[1]), idx(elt.elts[2])
+            okc = a0.eq(w['a']) and a1.eq(w['a']) and a2.eq(w['a']) and k0.eq(m) and k1.eq(C(0)) and k2.eq(C(2) * m - C(1))
+        ctx.check('R7.window', f'{s} free search: granted = tested', okc, key(ss, 'free|candidate'),
+                  'the candidate is not (index[a] + M, index[a], index[a] + 2M - 1) for the tested window starting at a: slots outside the '
+                  'tested window would be granted', ast.unparse(elt))
+    # ---- fixed N
+    ifs = [n for n in walk_no_nested(ss.node) if isinstance(n, ast.If) and any(isinstance(c, ast.Compare) for c in ast.walk(n.test))
+           and av in names_in(n.test)]
+    if len(ifs) != 1:
+        raise CannotAnalyse('spectrum_selection: fixed-N test not found')
+    w2, rest2 = _window(ifs[0].test, av, fi, lo, hi)
+    ok = all(k in w2 for k in 'abwxy') and not rest2
+    gi = [t for t in ast.walk(ss.node) if isinstance(t, ast.Assign) and isinstance(t.value, ast.Call) and
+          getattr(t.value.func, 'attr', '') == 'geti' and ast.unparse(t.value.args[0]) == 'requested_n']
+    ok = ok and len(gi) == 1
+    ctx.check('R7.window', f'{s} fixed N: window tests', ok, key(ss, 'fixed|shape'),
+              'the fixed-N test is not (slice all FREE) and both guard-band tests around geti(requested_n)', ast.unparse(ifs[0].test))
+    if ok:
+        c = Rat.sym(gi[0].targets[0].id)
+        ctx.check('R7.window', f'{s} fixed N: width and edges',
+                  w2['a'].eq(c - m) and w2['b'].eq(c + m) and w2['w'].eq(C(2) * m) and w2['x'].eq(w2['a']) and w2['y'].eq(w2['b'] - C(1)),
+                  key(ss, 'fixed|width'), 'the tested slice is not [geti(N) - M, geti(N) + M) with its two edge tests', ast.unparse(ifs[0].test))
+        rets = [t.value for t in ifs[0].body if isinstance(t, ast.Assign) and isinstance(t.value, ast.Tuple)]
+        n_ = Rat.sym('requested_n')
+        okc = len(rets) == 1 and len(rets[0].elts) == 3 and _ix(rets[0].elts[0]).eq(n_) and _ix(rets[0].elts[1]).eq(n_ - m) and \
+            _ix(rets[0].elts[2]).eq(n_ + m - C(1))
+        ctx.check('R7.window', f'{s} fixed N: granted = tested', okc, key(ss, 'fixed|candidate'),
+                  'the fixed candidate is not (N, N - M, N + M - 1)', ast.unparse(rets[0]) if rets else '')
+        orelse = [t.value for t in ifs[0].orelse if isinstance(t, ast.Assign)]
+        ctx.check('R7.window', f'{s} fixed N: refused otherwise', len(orelse) == 1 and ast.unparse(orelse[0]).replace(' ', '') == '(None,None,None)',
+                  key(ss, 'fixed|refuse'), 'a fixed N whose window is not free does not give (None, None, None)')
+    # ---- widening probe
+    ds = repo.func(MOD, 'determine_slot_numbers')
+    loops = [n for n in walk_no_nested(ds.node) if isinstance(n, ast.While)]
+    if len(loops) != 1:
+        raise CannotAnalyse('determine_slot_numbers: loop not found')
+    defs = {t.targets[0].id: ast.unparse(t.value) for t in ds.node.body if isinstance(t, ast.Assign) and isinstance(t.targets[0], ast.Name)}
+    bm = next((k for k, v in defs.items() if v.endswith('.spectrum_bitmap')), None)
+    inv = {v.split('.')[-1]: k for k, v in defs.items() if bm and v.startswith(bm + '.') and '(' not in v}
+    cen = next((k for k, v in defs.items() if 'geti(' in v and v.endswith(f'({ds.params[1]})')), None)
+    if cen is None or not all(k in inv for k in ('bitmap', 'freq_index', 'freq_index_min', 'freq_index_max')):
+        raise CannotAnalyse('determine_slot_numbers: locals not recognised')
+    w3, rest3 = _window(loops[0].test, inv['bitmap'], inv['freq_index'], inv['freq_index_min'], inv['freq_index_max'])
+    step = ds.params[3]
+    var = next((t.target.id for t in loops[0].body if isinstance(t, ast.AugAssign) and isinstance(t.op, ast.Add)
+                and ast.unparse(t.value) == step), None)
+    sd = site(ds)
+    ok = all(k in w3 for k in 'abwxy') and var is not None and len(loops[0].body) == 1 and defs.get(var) == step
+    ctx.check('R7.window', f'{sd} probe: shape', ok, key(ds, 'probe|shape'),
+              'the widening probe is not a loop over widths i = step, 2*step, ... testing slice and both edges', ast.unparse(loops[0].test))
+    if ok:
+        c, i = Rat.sym(cen), Rat.sym(var)
+        ctx.check('R7.window', f'{sd} probe: window', w3['a'].eq(c - i) and w3['b'].eq(c + i) and w3['w'].eq(C(2) * i) and
+                  w3['x'].eq(w3['a']) and w3['y'].eq(w3['b'] - C(1)), key(ds, 'probe|width'),
+                  'the probe does not test [c - i, c + i) against 2i FREE slots with both edge tests', ast.unparse(loops[0].test))
+        lim = [ast.unparse(r).replace(' ', '') for r in rest3]
+        ctx.check('R7.window', f'{sd} probe: bounded by the request', lim in ([f'{var}<={ds.params[2]}'], [f'{ds.params[2]}>={var}']),
+                  key(ds, 'probe|limit'), 'the probe is not limited to the required width', str(lim))
+        rets = [n.value for n in walk_no_nested(ds.node) if isinstance(n, ast.Return)]
+        ctx.check('R7.window', f'{sd} probe: returns the last width that passed', len(rets) == 1 and _ix(rets[0]).eq(i - Rat.sym(step)),
+                  key(ds, 'probe|return'), 'the probe does not return the last width for which the test passed (i - step)',
+                  ast.unparse(rets[0]) if rets else '')
+    ctx.need('R7.window', 11)
+
+
+RULES = [('R7.window', r7_window), ('R6.merge-probe', r6_merge_and_probe), ('R1.fresh', r1_fresh), ('R2.commit', r2_commit), ('R4.slots', r4_slots), ('R5.first-fit', r5_first_fit)]
